@@ -80,10 +80,11 @@ class Bench:
                 SimParams._shared_dict.update(self.sim_saved)
         raise Machinery(f'no loader for {kind}/{role}')
 
-    def load_pair(self, kind, legacy_json, yang_json, role='main', eqpt=None):
-        """load the same document from a legacy file and from a YANG file -> aligned value-number vectors"""
-        res = []
-        for name, data in (('legacy', legacy_json), ('yang', yang_json)):
+    def load_pair(self, kind, legacy_json, yang_json, role='main', eqpt=None, first=None, want_sides=False):
+        """load the same document from a legacy file and from a YANG file -> aligned value-number vectors.
+        `first` = an already loaded first side (what load_pair returned as third value) to avoid loading it again"""
+        res = [first] if first is not None else []
+        for name, data in (('legacy', legacy_json), ('yang', yang_json))[len(res):]:
             p = self.wd / f'{name}.json'
             p.write_text(json.dumps(data))
             flat, err, tb = {}, 'ok', None
@@ -103,9 +104,10 @@ class Bench:
                    for k, v in list(res[0][0].items()) + list(res[1][0].items())
                    if k.startswith('/nodes/') and k.endswith('#class') and '.' not in k[len('/nodes/'):].replace('. ', '')}
         sample = {p: (str(res[0][0].get(p))[:200], str(res[1][0].get(p))[:200]) for p in diff[:4]}
-        return (dict(role=role, a=a, b=b, ea=res[0][1], eb=res[1][1]),
-                dict(role=role, differing=diff[:12], ndiff=len(diff), all_differing=diff, classes=classes,
-                     err_legacy=res[0][2], err_yang=res[1][2], sample=sample))
+        out = (dict(role=role, a=a, b=b, ea=res[0][1], eb=res[1][1]),
+               dict(role=role, differing=diff[:12], ndiff=len(diff), all_differing=diff, classes=classes,
+                    err_legacy=res[0][2], err_yang=res[1][2], sample=sample))
+        return out + (res[1],) if want_sides else out
 
 
 def observe(bench, doc, as_int, name):
@@ -120,7 +122,10 @@ def observe(bench, doc, as_int, name):
     tr = dict(name=name, kind='abstract', doc=doc, exc=[], loads=[], lib=[], libok=False)
     det = dict(name=name, legacy_json=J, exceptions=[], loads=[])
     Y = L = Y2 = None
-    stages = (('l2y', lambda: legacy_to_yang(copy.deepcopy(J)), 'yang', 'y'),
+    # the caller's own document object is handed to legacy_to_yang (as save_gnpy_json / an API user does) and looked at
+    # again afterwards: converting must not change it
+    J_call = copy.deepcopy(J)
+    stages = (('l2y', lambda: legacy_to_yang(J_call), 'yang', 'y'),
               ('y2l', lambda: yang_to_legacy(copy.deepcopy(Y)), 'legacy', 'l'),
               ('l2y2', lambda: legacy_to_yang(copy.deepcopy(L)), 'yang', 'y2'))
     for stage, fn, form, field in stages:
@@ -136,6 +141,11 @@ def observe(bench, doc, as_int, name):
         tr[field] = proj if proj is not None else du.placeholder(kind, form)
         if stage == 'l2y':
             Y = out
+            try:
+                ja, _ = du.PROJECT[kind](copy.deepcopy(J_call), 'legacy')
+            except Exception:                    # noqa  a document the projection cannot even walk any more
+                ja = None
+            tr['ja'] = ja if ja is not None else du.placeholder(kind, 'legacy')
         elif stage == 'y2l':
             L = out
         else:
@@ -162,14 +172,14 @@ def observe(bench, doc, as_int, name):
                 tr['exc'].append(dict(stage=stage, what=type(e).__name__))
                 det['exceptions'].append(f'{stage}: {type(e).__name__}: {str(e)[:400]}')
     if Y is not None:
-        ld, rep = bench.load_pair(kind, J, Y)
+        ld, rep, y_side = bench.load_pair(kind, J, Y, want_sides=True)
         tr['loads'].append(ld)
         det['loads'].append(rep)
         for role, other in others.items():
             if role in ('reordered', 'qualified') and other == Y:
                 continue                         # this document has no keyed list with two entries: same file
             # "legacy" side of these pairs = the converter's in-memory YANG output written as is
-            ld, rep = bench.load_pair(kind, Y, other, role=role)
+            ld, rep = bench.load_pair(kind, Y, other, role=role, first=y_side)
             tr['loads'].append(ld)
             det['loads'].append(rep)
         if kind == 'equipment':
@@ -265,6 +275,9 @@ def classify(tr, det, stage, clause):
     elif clause in ('YangFormAsSpecified', 'NoForeignKeysInYang'):
         keys = sorted({re.sub(r'/\d+', '/#', e) for e in tr['y'].get('extra', [])})
         what = ','.join(keys[:4])
+    elif clause == 'InputDocumentUntouched':
+        comps = diff_components(doc, dict(tr['ja'], extra=[])) if tr['ja'].get('extra') != ['~no-document'] else []
+        what = ','.join(sorted({'.'.join(re.sub(r'\[\]|#len', '', c).split('.')[1:3]) for c in comps})[:3])
     elif clause == 'Idempotent':
         comps = diff_components(tr['y'], tr['y2'])
         what = ','.join(sorted({'.'.join(re.sub(r'\[\]|#len', '', c).split('.')[1:3]) for c in comps})[:4])
